@@ -96,7 +96,11 @@ example : isData (.record [("k", .list [.num F64.one, .str "é"]), ("", .null)])
 def roundtrip_any_number_statement : Prop :=
   ∀ (pf : ParseFn) (sv : SV), sv.plain = true → sv.noFn pf = true → fromJson pf (toJson sv) = sv.sortKeys
 
-/-- a non-finite number is written as `0` (`Number::from_f64(..).unwrap_or(0)`) -/
+/-- a non-finite number is written as `0` by `to_json` (`Number::from_f64(..).unwrap_or(0)`).
+    This is the library function; the CLI no longer reaches it for its outputs object
+    (C19 `nonfinite_output_is_error`: such an output is refused with exit 1), so the
+    "finite" hypothesis of the property is necessary for `to_json` itself and enforced by
+    the CLI. -/
 theorem nonfinite_written_as_zero :
     toJson (.num F64.inf) = .num F64.zero ∧ toJson (.num F64.negInf) = .num F64.zero ∧
     toJson (.num F64.nan) = .num F64.zero := by
